@@ -1,10 +1,13 @@
 import Martian.Lemmas.H2Session
+import Martian.Props.C10.Stages
+import Martian.Props.C10.Locks
+import Martian.Props.C10.Facts
 /-!
 # C10 — an HTTP/2 relay session terminates and releases both connections whichever side ends
 
 Theorems about the process/channel model `Martian.H2Session` (one `h2.Config.Proxy` call: two
 readers, two writers, the `ReadFrame` goroutines, the watcher, channels `output`×2 (cap 15),
-`readerDone`, `writerErr`, `frameReady`, `done`, mutex `flowMu`).  All statements quantify over
+`readerDone`, `writerErr`, `frameReady`, `done`, mutexes `flowMu`×2 and `destMu`×2 with explicit owner).  All statements quantify over
 every reachable state and every schedule (list of process labels); nothing is bounded.
 
 Liveness is stated as: (1) a ranking function strictly decreases on every process step, so between
@@ -68,7 +71,7 @@ theorem terminates_partial {s s' : Sys} {ls : List Label} (hr : Reach s) (ht : t
 
 /-- The s2c reader has taken a WINDOW_UPDATE that releases 16 frames queued in the c2s relay and holds
     the c2s `flowMu`; the client's EOF is waiting in `frameReady` of the c2s reader. -/
-def f10cStart : Sys := { c := { r := .selReady .eof }, s := { r := .pushing .c2s 16 } }
+def f10cStart : Sys := { c := { r := .selReady .eof }, s := { r := .pushing .c2s 16 false } }
 
 def f10cPrefix : List Label :=
   [.deliver .s2c (.frame (.peer 16)), .rTake .s2c, .acquire .s2c, .deliver .c2s .eof]
@@ -78,7 +81,7 @@ def f10cSchedule : List Label :=
   [.rTake .c2s, .handshake .c2s] ++ List.replicate 15 (.push .s2c) ++ [.watchDone]
 
 def f10cEnd : Sys :=
-  { c := { r := .gone, out := 15 }, s := { r := .pushing .c2s 1 }, done := true, watcher := false }
+  { c := { r := .gone, out := 15 }, s := { r := .pushing .c2s 1 false }, done := true, watcher := false }
 
 theorem f10c_start_reachable : Reach f10cStart :=
   reach_exec (ls := f10cPrefix) Reach.init (by decide)
@@ -101,7 +104,7 @@ theorem terminates_counterexample : ¬ Terminates := by
 /-- Once `Proxy` has returned it stays returned. -/
 theorem returned_is_stable {s s' : Sys} {l : Label} (hr : s.returned = true) (h : step s l = some s') :
     s'.returned = true := by
-  obtain ⟨⟨cr, cf, co, cw, cl, cs⟩, ⟨sr, sf, so, sw, sl, ss⟩, dn, clg, wt, rt, scc, ccc⟩ := s
+  obtain ⟨⟨cr, cw, cf, co, ce, cl, cs, cx, cm⟩, ⟨sr, sw, sf, so, se, sl, ss, sx, sm⟩, dn, clg, wt, rt, scc, ccc⟩ := s
   step_cases (simp_all)
 
 /-- When `Proxy` has returned, the upstream connection it dialled is closed and both relays
@@ -109,7 +112,6 @@ theorem returned_is_stable {s s' : Sys} {l : Label} (hr : s.returned = true) (h 
 theorem upstream_closed_on_return {s : Sys} (hr : Reach s) (h : s.returned = true) :
     s.scClosed = true ∧ s.c.r = .gone ∧ s.s.r = .gone := by
   have g := good_reach hr
-  simp [Good] at g
   have := g.2.2.2.1 h
   exact ⟨this.2.2, this.1, this.2.1⟩
 
@@ -120,15 +122,28 @@ theorem upstream_closed_on_return {s : Sys} (hr : Reach s) (h : s.returned = tru
 theorem no_process_left_on_return {s : Sys} (hr : Reach s) (h : s.returned = true) (hq : quiescent s = true) :
     alive s = (if s.c.leak then [Proc.readframe] else []) ∧ (s.ccClosed = true → alive s = []) := by
   have g := good_reach hr
-  obtain ⟨⟨cr, cf, co, cw, cl, cs⟩, ⟨sr, sf, so, sw, sl, ss⟩, dn, clg, wt, rt, scc, ccc⟩ := s
-  simp at h; subst h
-  simp [Good] at g
-  obtain ⟨g1, g2, g3, rfl, rfl, rfl⟩ := g
-  simp at g1; subst g1
-  simp [quiescent, procLabels, step, Sys.side, Sys.setSide, Rd.inSelect, lockHeld, Rd.isPushing, srcClosed] at hq
-  simp [alive, Side.alive, Rd.isReading]
-  simp_all
-  cases cl <;> simp_all
+  obtain ⟨hcg, hsg, hscc⟩ := g.2.2.2.1 h
+  have hw : s.watcher = false := by
+    have := q_none hq (l := .watchDone) (by decide)
+    have hd := g.1 hcg
+    cases hwt : s.watcher
+    · rfl
+    · simp [step, hwt, hd] at this
+  have hl : s.s.leak = false := by
+    have := q_none hq (l := .rfClosed .s2c) (by decide)
+    cases hlk : s.s.leak
+    · rfl
+    · simp [step, Sys.side, srcClosed, hlk, hscc] at this
+  have hl2 : s.ccClosed = true → s.c.leak = false := by
+    intro hcc
+    have := q_none hq (l := .rfClosed .c2s) (by decide)
+    cases hlk : s.c.leak
+    · rfl
+    · simp [step, Sys.side, srcClosed, hlk, hcc] at this
+  constructor
+  · simp [alive, Side.alive, h, hcg, hsg, hw, hl, Rd.isReading]
+  · intro hcc
+    simp [alive, Side.alive, h, hcg, hsg, hw, hl, hl2 hcc, Rd.isReading]
 
 /-! ### Non-vacuity -/
 
